@@ -233,7 +233,7 @@ def bit_range_invariant(rep):
     """0 <= _bit_offset <= 7 is preserved by bit_advance(n), ++ and -- for every range size (interval analysis with
     branch refinement); a violated bound is confirmed by constant propagation of a candidate (offset, n)"""
     from .ir.num import NumInterp, Unsupported as NU
-    wd = os.path.join(C.BUILD, "work", "C08")
+    wd = C.workpath("C08")
     sizes = (1, 2, 3, 4, 5, 7, 8, 12, 16)
     L = ['#include "vf_common.hpp"', 'using namespace vf;', 'extern "C" {']
     obl = []
